@@ -370,7 +370,7 @@ fn main() {
           l.count("nontrivial_depth_ge3", 1);
         }
       }
-      if l.samples.len() < 2 && !o.lo.is_empty() && o.hi.len() < views.len() && rq.q.depth() >= 2 {
+      if l.samples.len() < 2 && o.missing.is_empty() && o.unexpected.is_empty() && !o.lo.is_empty() && o.hi.len() < views.len() && rq.q.depth() >= 2 {
         l.sample(json!({"schema": sch.json, "live_docs": views.len(), "request": rq.to_json(),
           "oracle_definite": o.lo, "oracle_possible_extra": o.hi.difference(&o.lo).collect::<Vec<_>>(), "engine": o.engine}));
       }
